@@ -70,6 +70,8 @@ def make_array(ac, n, p, start, seed):
     if ac == "list_bool":
         vals = [bool((start + i) % 3 != 1) for i in range(n)]
         return vals, proj.elems(np.array(vals, dtype="i1")), {"int8", "bool"}, "cooked"
+    if ac == "list_str_all_empty":
+        return [""] * n, ["s:"] * n, {"object"}, "cooked"
     if ac in ("list_str", "np_str", "list_str_multibyte"):
         src = MSTRS if ac == "list_str_multibyte" else STRS
         vals = ["%d%s" % (start + i, src[(start + i) % len(src)]) if (start + i) % 4 else src[(start + i) % len(src)]
@@ -77,8 +79,8 @@ def make_array(ac, n, p, start, seed):
         arg = np.array(vals) if ac == "np_str" else vals
         return arg, ["s:" + v for v in vals], {"object"}, "cooked"
     if ac in ("np_datetime64_us", "np_datetime64_ns", "list_datetime"):
-        secs = [1600000000, -2500000000, 0, 86399, -2082844801][(start) % 5]
-        us = [secs * 10 ** 6 + 3600 * 10 ** 6 * i + US[(start + i) % len(US)] for i in range(n)]
+        SECS = [1600000000, -2500000000, 0, 86399, -2082844801]       # two of them lie before 1904
+        us = [SECS[(start + i) % 5] * 10 ** 6 + 3600 * 10 ** 6 * i + US[(start + i) % len(US)] for i in range(n)]
         exp = [struct.pack("<q", v).hex() for v in us]
         if ac == "np_datetime64_us":
             arg = np.array(us, dtype="datetime64[us]")
@@ -102,7 +104,11 @@ def make_value(vc, seed):
     """-> (python value, expected canonical read-back, read mode)"""
     from nptdms import types
     from nptdms.timestamp import TdmsTimestamp
-    ints = {"int_small": 5, "int_neg": -7, "int_m2p31": -2 ** 31, "int_2p31m1": 2 ** 31 - 1, "int_2p31": 2 ** 31,
+    if vc == "float_five":
+        return 5.0, proj.prop_canon(5.0), "cooked"          # numerically equal to the int class int_small
+    if vc == "str_tag":
+        return "converted from TDSm by TDSh", "s:converted from TDSm by TDSh", "cooked"
+    ints = {"int_three": 3, "int_small": 5, "int_neg": -7, "int_m2p31": -2 ** 31, "int_2p31m1": 2 ** 31 - 1, "int_2p31": 2 ** 31,
             "int_lt_m2p31": -2 ** 31 - 1, "int_2p63m1": 2 ** 63 - 1, "int_m2p63": -2 ** 63, "int_2p63": 2 ** 63,
             "int_2p64m1": 2 ** 64 - 1}
     if vc in ints:
@@ -244,6 +250,13 @@ def replay_writer_case(case):
     h = zlib.crc32(repr(rec["prog"]).encode())
     target = "path" if (h + seed) % 5 == 0 else "stream"
     version = 4713 if (h // 5) % 2 else 4712
+    big = any(o.get("len", 0) > 100000 for c in rec["prog"] if c["call"] == "write" for o in c["objs"])
+    if big and not case.get("_target"):
+        # large arrays: both destinations (a stream cannot take ndarray.tofile, a path can)
+        a = replay_writer_case(dict(case, _target="stream"))
+        b = replay_writer_case(dict(case, _target="path"))
+        return {"n": a["n"] + b["n"], "keys": a["keys"], "fails": a["fails"] + b["fails"], "validated": 1, "obs": a.get("obs")}
+    target = case.get("_target", target)
 
     def sig(kind, **kw):
         s = {"kind": kind}
